@@ -183,9 +183,11 @@ class LogicExpr:
 l = pp.Literal
 
 lpar, rpar, lbra, rbra, eq, comma, pipe, tilde = map(pp.Suppress, "()[]=,|~")
-quotedString = pp.QuotedString('"', unquoteResults=True) | pp.QuotedString(
-    "'", unquoteResults=True
-)
+# Strings are taken as they are written (a backslash is a backslash: regular
+# expressions keep their escapes, `\t` in a value is not turned into a tab)
+quotedString = pp.QuotedString(
+    '"', unquoteResults=True, convertWhitespaceEscapes=False
+) | pp.QuotedString("'", unquoteResults=True, convertWhitespaceEscapes=False)
 
 var = l("@state") | l("@name") | pp.Word(pp.alphas)
 var.setParseAction(VarExpr)
